@@ -23,6 +23,8 @@ from ..symx import Engine, SymStr
 
 NEVER = "\U0010ffff\U0010fffe"
 KINDS = ["group", "reassocL", "reassocR", "extract", "dup", "never", "notnever"]
+# combinations: kind A at the site, then kind B at a path relative to the node A produced
+COMBOS = ["never+extract@0.0", "notnever+extract@0.0", "dup+extract@0.0", "dup+extract@0.1", "never+extract@0.1", "group+never@0", "extract+never@", "never+dup@0.1", "group+group@0"]
 HERE = os.path.dirname(os.path.dirname(os.path.dirname(os.path.abspath(__file__))))
 
 
@@ -60,7 +62,7 @@ def rewrite_at(expr, path, fn):
     return expr.with_children(kids)
 
 
-def make_rewrite(cp, kind: str, rules: dict, counter=[0]):  # noqa: B006
+def make_rewrite(cp, kind: str, rules: dict, name: str = "xr_extracted"):
     g = cp.modules["pest.grammar"]
     ex = cp.modules["pest.grammar.expressions"]
     rl = cp.modules["pest.grammar.rule"]
@@ -80,7 +82,6 @@ def make_rewrite(cp, kind: str, rules: dict, counter=[0]):  # noqa: B006
                 return cls(kids[0], g.Group(cls(*kids[1:])))
             return cls(g.Group(cls(*kids[:-1])), kids[-1])
         if kind == "extract":
-            name = "xr_extracted"
             rules[name] = rl.GrammarRule(name, e, rl.SILENT)
             return ex.Identifier(name)
         if kind == "dup":
@@ -107,7 +108,23 @@ class Variant:
             try:
                 orig = cp.parser(gtext, optimized=opt)
                 rules, doc = cp.modules["pest.grammar"].parse(gtext, cp.pest.Parser.BUILTIN)
-                fn = make_rewrite(cp, kind, rules)
+                if "+" in kind:
+                    ka, rest = kind.split("+", 1)
+                    kb, rel = rest.split("@")
+                    relpath = tuple(int(x) for x in rel.split(".") if x != "")
+                    fa = make_rewrite(cp, ka, rules)
+                    fb = make_rewrite(cp, kb, rules, name="xr_second")
+
+                    def fn(e, fa=fa, fb=fb, relpath=relpath):
+                        first = fa(e)
+                        if first is None:
+                            return None
+                        try:
+                            return rewrite_at(first, relpath, lambda x: self._apply(fb, x))
+                        except IndexError:
+                            return None
+                else:
+                    fn = make_rewrite(cp, kind, rules)
                 new_expr = rewrite_at(rules[rname].expression, path, lambda e: self._apply(fn, e))
                 if not self.applicable:
                     return
@@ -234,13 +251,15 @@ def plan(tier: str, seed: int):
             if type(rule).__name__ != "GrammarRule":
                 continue
             for path, e in sites(cp, rule.expression):
-                for kind in KINDS:
+                for kind in KINDS + COMBOS:
                     if kind.startswith("reassoc") and not (type(e).__name__ in ("Sequence", "Choice") and len(e.children()) >= 3):
                         continue
                     variants.append((rel, rname, path, kind, entries))
     total = len(variants)
     if tier == "quick":
-        variants = rnd.sample(variants, min(900, len(variants)))
+        singles = [v for v in variants if "+" not in v[3]]
+        combos = [v for v in variants if "+" in v[3]]
+        variants = rnd.sample(singles, min(600, len(singles))) + rnd.sample(combos, min(500, len(combos)))
     tasks = []
     for rel, rname, path, kind, entries in variants:
         r2 = random.Random(f"{seed}/{rel}/{rname}/{path}/{kind}")
@@ -316,7 +335,7 @@ def main(tier: str, seed: int, args) -> int:
         rule="program = (bundled grammar, rule, sub-expression site, rewrite kind); each is decided on corpus inputs with a window of 1-2 symbolic characters (replaced / inserted at seeded offsets) and on whole symbolic inputs of length <= 2/3, original vs rewritten in the same mode, four modes; one case = one joint path",
         assumptions=[
             "NEVER is U+10FFFF U+10FFFE and symbolic characters are assumed != U+10FFFF",
-            "quick: a seeded sample of 900 of the (site, rewrite) variants; thorough: all of them; windows wider than 2 and documents longer than 120 characters are outside the claim",
+            "quick: a seeded sample of 600 single and 500 combined (site, rewrite) variants; thorough: all of them; windows wider than 2 and documents longer than 120 characters are outside the claim",
             "failure positions / expected sets are not compared (the rewrites add failed attempts by design); outcome and tree are",
             "rewrites are applied to the Expression tree of a fresh pest.grammar.parse() and given to the public Parser(rules, doc, optimizer=...) constructor",
         ],
